@@ -251,6 +251,14 @@ def _calculate_tt_nu(
     Calculate the t-test statistic and degrees of freedom (nu)
     from the mean, variance, and N of two populations
     """
+    # the cluster sizes arrive as numpy integers: n**3 silently
+    # wraps around in int64 for n > 2**21 cells; python integers
+    # do not (and give the same result below that size)
+    if np.ndim(n1) == 0:
+        n1 = int(n1)
+    if np.ndim(n2) == 0:
+        n2 = int(n2)
+
     nu_num = var1/n1 + var2/n2
     denom = np.sqrt(nu_num)
     denom = np.where(denom > 0.0, denom, 1.0e-10)
